@@ -1,11 +1,13 @@
 #!/bin/sh
-# tools/try_patch.sh <patch.diff> <runs> <PROP> [PROP...] : run checks against a scratch copy of /repo with the patch applied
+# tools/try_patch.sh <patch.diff> <runs|0=default> <PROP> [PROP...] : run checks against a scratch copy of /repo with the patch applied
 P="$1"; RUNS="$2"; shift 2
 T=$(mktemp -d /tmp/gbsim-try-XXXXXX)
 cp -r /repo/src "$T/src"; rm -rf "$T/src/gbigsmiles/__pycache__"
 (cd "$T" && patch -p1 -s < "$P") || { echo "patch failed"; rm -rf "$T"; exit 3; }
+if [ "$RUNS" != "0" ]; then export GBSIM_RUNS="$RUNS"; fi
 for PID in "$@"; do
-  GBSIM_REPO="$T" GBSIM_RUNS="$RUNS" GBSIM_EVIDENCE_DIR="$T/ev" GBSIM_REPLAY_DIR="$T/rp" /verif/check "$PID" quick 2>&1 | grep -v conda | grep -E "VIOLATION|invariant=|HARNESS|\[gbsim\] C" | cut -c1-330
-  echo "   -> $PID exit=$?"
+  GBSIM_REPO="$T" GBSIM_EVIDENCE_DIR="$T/ev" GBSIM_REPLAY_DIR="$T/rp" /verif/check "$PID" quick > "$T/out.txt" 2>&1; RC=$?
+  grep -v conda "$T/out.txt" | grep -E "VIOLATION|invariant=|HARNESS|\[gbsim\] C" | cut -c1-330
+  echo "   -> $PID exit=$RC"
 done
 rm -rf "$T"
